@@ -937,6 +937,23 @@ fn run(name: &str, j: &J) -> Result<bool, String> {
             }
             Ok(true)
         }
+        // C05 / C18: a privacy unit reached through a two-step foreign-key path WITH a weight column must be trackable
+        "c05_weighted_path" => {
+            use qrlew::{hierarchy::Hierarchy, expr::Identifier, sql::parse, privacy_unit_tracking::Strategy};
+            use std::sync::Arc;
+            let mk = |n: &str, cols: Vec<(&str, DataType)>| -> Relation { Relation::table().name(n).schema(cols.into_iter().collect::<Schema>()).size(100).build() };
+            let items = mk("items", vec![("order_id", DataType::integer_interval(0, 100)), ("price", DataType::float_interval(0., 10.))]);
+            let orders = mk("orders", vec![("id", DataType::integer_interval(0, 100)), ("user_id", DataType::integer_interval(0, 100))]);
+            let users = mk("users", vec![("id", DataType::integer_interval(0, 100)), ("name", DataType::text()), ("w", DataType::float_interval(0., 1.))]);
+            let relations: Hierarchy<Arc<Relation>> = vec![items, orders, users].iter().map(|t| (Identifier::from(t.name()), Arc::new(t.clone()))).collect();
+            let weighted = j["weight"].as_bool().unwrap_or(true);
+            let pu = if weighted { PrivacyUnit::from(vec![("items", vec![("order_id", "orders", "id"), ("user_id", "users", "id")], "name", "w"), ("orders", vec![("user_id", "users", "id")], "name", "w"), ("users", vec![], "name", "w")]) }
+                     else { PrivacyUnit::from(vec![("items", vec![("order_id", "orders", "id"), ("user_id", "users", "id")], "name"), ("orders", vec![("user_id", "users", "id")], "name"), ("users", vec![], "name")]) };
+            let relation = Relation::try_from(parse("SELECT price FROM items").map_err(|e| e.to_string())?.with(&relations)).map_err(|e| e.to_string())?;
+            let r = relation.rewrite_as_privacy_unit_preserving(&relations, None, pu, qrlew::differential_privacy::DpParameters::from_epsilon_delta(1., 1e-3), Some(Strategy::Hard));
+            println!("  weighted = {}: {:?}", weighted, r.as_ref().map(|x| x.relation().schema().to_string()).map_err(|e| e.to_string()));
+            Ok(r.is_ok())
+        }
         _ => Err(format!("unknown replay `{}`", name)),
     }
 }
